@@ -414,10 +414,13 @@ def main():
     for old in (glob.glob(os.path.join(REPLAY, prop + '-*.json')) if not no_evidence else []):
         os.remove(old)
     units = units_for(prop)
+    if '--only-unit' in args:  # mutation sweep: the unit that holds the mutated function only (never used by a registered command)
+        only = args[args.index('--only-unit') + 1]
+        units = [u for u in units if os.path.splitext(os.path.basename(u))[0] == only]
     results = []
     with cf.ThreadPoolExecutor(max_workers=8) as ex:
         futs = [ex.submit(run_unit, p, prop, tier, seed, tag) for p in units]
-        conf_f = ex.submit(run_conformance) if os.environ.get('VERIF_CONFORM') != '0' else None
+        conf_f = ex.submit(run_conformance) if os.environ.get('VERIF_CONFORM') != '0' and not no_evidence else None
         for f in futs:
             results.append(f.result())
         conformance = conf_f.result() if conf_f else {'status': 'skipped'}
@@ -450,7 +453,7 @@ def main():
         for ud in u['undecided']:
             undecided.append(dict(ud, unit=u['unit']))
         for f in u['failures']:
-            if prop not in f['props']:
+            if prop not in f['props'] and os.environ.get('VERIF_ANY_PROP') != '1':  # VERIF_ANY_PROP: mutation sweep only (a failure charged to ANY property rejects the mutant)
                 continue
             lab = (f['labels'] or ['%s.%s' % (prop, (f['blocks'] or ['spec'])[0].split('::')[-1])])
             lab = [l for l in lab if l.startswith(prop + '.')] or lab
